@@ -3,7 +3,7 @@ import ast
 
 import z3
 
-from .sorts import (ArrT, SV, PyVal, PyTuple, Closure, BoundMethod, ModuleRef, ClassRef, SpecFn, INT, BOOL, STR, REAL, VAL, NONE,
+from .sorts import (PyDict, PyProperty, ArrT, SV, PyVal, PyTuple, Closure, BoundMethod, ModuleRef, ClassRef, SpecFn, INT, BOOL, STR, REAL, VAL, NONE,
                     NONE_V, RefT, SeqT, SetT, MapT, TupT, Val, Ref, null, zsort, fresh, mk_bool, mk_int, mk_str, fresh_name)
 from .values import (nth, OutsideSubset, coerce, box, unbox, py_eq, truthy, ite, tup_items, empty_map, join_sort, is_ref,
                      int_to_str, str_to_int, is_int_literal, default_term)
@@ -423,6 +423,11 @@ class CallMixin(object):
             raise OutsideSubset('builtin %s' % n)
         return m(args, kwargs, st, node)
 
+    def bi_property(self, args, kwargs, st, node):
+        fget = args[0] if args else kwargs.get('fget')
+        fset = args[1] if len(args) > 1 else kwargs.get('fset')
+        return PyProperty(fget, fset)
+
     def bi_log(self, args, kwargs, st, node):
         return NONE_V
 
@@ -524,6 +529,36 @@ class CallMixin(object):
         if v.sort == VAL:
             return unbox(v, INT)
         raise OutsideSubset('int() of %s' % v.sort)
+
+    def bi_sorted(self, args, kwargs, st, node):
+        """LIB (A-SORT): sorted(seq) without key is an abstract permutation of the sequence (same length)"""
+        if kwargs:
+            raise OutsideSubset('sorted with key/reverse')
+        seq = self.as_seq(args[0], st)
+        f = z3.Function('sorted_' + seq.t.sort().name().replace(' ', '_').replace('(', '').replace(')', ''), seq.t.sort(), seq.t.sort())
+        r = f(seq.t)
+        st.assume(z3.Length(r) == z3.Length(seq.t))
+        return SV(seq.sort, r)
+
+    def bi_join(self, args, kwargs, st, node):
+        """spec: join(sep, seq) is the same abstract function str.join is modelled by"""
+        f = z3.Function('str_join', z3.StringSort(), z3.SeqSort(z3.StringSort()), z3.StringSort())
+        return SV(STR, f(coerce(args[0], STR).t, coerce(self.as_seq(args[1], st), SeqT(STR)).t))
+
+    def bi_float(self, args, kwargs, st, node):
+        """LIB (A-FLOAT): float(str) is an abstract parse; it raises ValueError unless the text is a float literal (abstract predicate)"""
+        v = args[0]
+        if v.sort == REAL:
+            return v
+        if v.sort == INT:
+            return coerce(v, REAL)
+        if v.sort in (STR, VAL):
+            sv = coerce(v, STR).t
+            ok = z3.Function('float_literal', z3.StringSort(), z3.BoolSort())
+            if not self.spec_mode:
+                self.raise_if(st, z3.Not(ok(sv)), 'ValueError', 'float() of a non-numeric string')
+            return SV(REAL, z3.Function('parse_float', z3.StringSort(), z3.RealSort())(sv))
+        raise OutsideSubset('float() of %s' % v.sort)
 
     def bi_list(self, args, kwargs, st, node):
         if not args:
@@ -739,6 +774,22 @@ class CallMixin(object):
         b = coerce(b, a.sort)
         return mk_bool(z3.And([a.c[k] == b.c[k] for k in a.c]) if a.c else z3.BoolVal(True))
 
+    def bi_as_str(self, args, kwargs, st, node):
+        return coerce(args[0], STR)
+
+    def bi_as_int(self, args, kwargs, st, node):
+        return coerce(args[0], INT)
+
+    def bi_int_literal(self, args, kwargs, st, node):
+        """int_literal(s): s is a string int() accepts (optional sign, digits)"""
+        return mk_bool(is_int_literal(coerce(args[0], STR).t))
+
+    def bi_float_literal(self, args, kwargs, st, node):
+        return mk_bool(z3.Function('float_literal', z3.StringSort(), z3.BoolSort())(coerce(args[0], STR).t))
+
+    def bi_is_digits(self, args, kwargs, st, node):
+        return mk_bool(z3.StrToInt(coerce(args[0], STR).t) >= 0)
+
     def bi_is_none(self, args, kwargs, st, node):
         return mk_bool(py_eq(args[0], NONE_V))
 
@@ -783,11 +834,11 @@ class CallMixin(object):
                 f = z3.Function('str_join', z3.StringSort(), z3.SeqSort(z3.StringSort()), z3.StringSort())
                 return SV(STR, f(recv.t, coerce(seq, SeqT(STR)).t))
             if name == 'isdigit':
-                return mk_bool(z3.InRe(recv.t, z3.Plus(z3.Range('0', '9'))))
+                return mk_bool(z3.StrToInt(recv.t) >= 0)       # exactly the non-empty ASCII digit strings (A: no other Unicode digits)
             if name == 'replace':
                 a, b = z3.simplify(args[0].t), z3.simplify(args[1].t)
                 if z3.is_string_value(a) and z3.is_string_value(b):
-                    f = z3.Function('str_replace_all', z3.StringSort(), z3.StringSort(), z3.StringSort(), z3.StringSort())
+                    f = z3.Function('u_str_replace_all', z3.StringSort(), z3.StringSort(), z3.StringSort(), z3.StringSort())
                     return SV(STR, f(recv.t, a, b))
                 raise OutsideSubset('str.replace with symbolic patterns')
             if name == 'count':
